@@ -1472,6 +1472,16 @@ func (p *Posix) CompleteMultipartUpload(ctx context.Context, input *s3.CompleteM
 
 	upiddir := filepath.Join(objdir, uploadID)
 
+	// Sidecar metadata is keyed by object name and outlives the file it
+	// described: the assembled object must not inherit the attributes (tags,
+	// user metadata, content headers) of the one it replaces (see PutObject).
+	if _, ok := p.meta.(meta.SideCar); ok {
+		err := p.meta.DeleteAttributes(bucket, object)
+		if err != nil {
+			return nil, fmt.Errorf("clear object attributes: %w", err)
+		}
+	}
+
 	userMetaData := make(map[string]string)
 	objMeta := p.loadObjectMetaData(bucket, upiddir, nil, userMetaData)
 	err = p.storeObjectMetadata(f.File(), bucket, object, objMeta)
